@@ -21,7 +21,7 @@ SPEC = dict(
     assumptions=["expected message = template with placeholders replaced textually (own implementation)",
                  "templates contain no braces other than documented placeholders; OLD/NEW occur as separate words",
                  "real git: only messages that git's own whitespace/comment clean-up leaves unchanged are read back"],
-    required=["real_git_leading_dash_paths", "real_git_pathspec_neighbours", "real_git_push_runs", "real_git_push_from_branch_tracking_a_local_branch", "real_git_push_with_column_ui_always", "real_git_push_to_tracked_remote_not_named_origin", "fake_git_runs", "fake_hg_runs", "real_git_runs", "k12_evaluations", "class:squote", "class:dquote",
+    required=["real_git_leading_dash_paths", "real_git_pathspec_neighbours", "real_git_push_runs", "real_git_push_from_branch_tracking_a_local_branch", "real_git_push_with_column_ui_always", "hg_runs_with_blank_in_tmpdir", "real_git_push_to_tracked_remote_not_named_origin", "fake_git_runs", "fake_hg_runs", "real_git_runs", "k12_evaluations", "class:squote", "class:dquote",
               "class:backslash", "class:newline", "class:leading-dash", "class:dollar", "class:backtick",
               "hostile_paths_checked", "templates_from_config", "config_templates_with_OLD_NEW_words",
               "templates_from_setup_cfg", "ini_templates_with_percent", "empty_tag_message_from_config"],
@@ -198,7 +198,22 @@ def run_fake(ctx, case):
         try:
             fake.set_out("status", "")
             args = ["update", "--patch", "--no-fetch"] + ([] if via_cfg else ["--commit-message", c_t, "--tag-message", t_t])
-            res = harness.invoke(args, cwd=d, env=fake.env)
+            spaced = None
+            if vcs == "hg" and case["seed"] % 3 == 0:
+                # the directory for temporary files has a blank in its path (TMPDIR of a user "John Doe"): hg gets its
+                # commit message through a file there
+                import tempfile
+                spaced = d + ".tmp dir"
+                os.makedirs(spaced, exist_ok=True)
+                saved_tmp, tempfile.tempdir = tempfile.tempdir, spaced
+                if variant == "hostile":
+                    ctx.count("hg_runs_with_blank_in_tmpdir")
+            try:
+                res = harness.invoke(args, cwd=d, env=dict(fake.env, TMPDIR=spaced) if spaced else fake.env)
+            finally:
+                if spaced:
+                    tempfile.tempdir = saved_tmp
+                    harness.rm_dir(spaced)
             results[variant] = (res, fake.events(), args)
         finally:
             harness.rm_dir(d)
